@@ -149,6 +149,7 @@ func c06worker(c *hx.Ctx) int {
 	insts := c06instances()
 	reported := map[string]bool{}
 	ord := 0
+	oneShotOnly := false
 	doSchema := func(schema string, degenerate bool, allModes bool) {
 		ord++
 		if (ord-1)%c.Workers != c.Worker {
@@ -161,6 +162,9 @@ func c06worker(c *hx.Ctx) int {
 		hx.AnnounceCase(schema)
 		rep.Inc("schemas", 1)
 		modes := c06modes(allModes)
+		if oneShotOnly {
+			modes = modes[:1]
+		}
 		try := func(it string, num bool, extreme bool) {
 			for _, m := range modes {
 				rep.Inc("calls", 1)
@@ -213,11 +217,11 @@ func c06worker(c *hx.Ctx) int {
 	all := append(append([]string(nil), regular...), deg...)
 	for i := 1; i < len(all); i++ {
 		for j := i + 1; j < len(all); j++ {
-			if c.Quick() && i < len(regular) && j < len(regular) {
-				continue // quick: regular x regular pairs are left to the thorough tier (C01 runs all of them through both entry points)
-			}
 			if s := gen.Merge(all[i], all[j]); s != "" {
+				// quick: regular x regular pairs go through the one-shot entry point only
+				oneShotOnly = c.Quick() && i < len(regular) && j < len(regular)
 				doSchema(s, j >= len(regular), false)
+				oneShotOnly = false
 			}
 		}
 	}
